@@ -5,7 +5,7 @@ import core, pubsub_common as ps
 def run(ctx):
     # composition level: the call order of send_sample is regenerated from /repo (Props/C01Compose.lean is about the regenerated program)
     import compose
-    compose.regen_only(ctx)
+    compose.compose_part(ctx)
     core.prove(ctx)
     drv = core.build_driver(ctx)
     ok, err = core.build_harness(ctx)
